@@ -634,9 +634,12 @@ class C14(PropertyCheck):
                   "the function U with U(0) = 1, U continuous, dU/dt = -i H(t) U(t) (right derivative at every real t, two-sided "
                   "derivative off the merged grid) where H(t) = drift + sum_m c_m(t) H_m is the STATED Hamiltonian at the real time t "
                   "(step coefficient holds its value from one grid point to the next, zero once its grid has ended), and U is the "
-                  "only continuous function with that right derivative and U(0) = 1 (Gronwall): the slice product is the time-ordered "
+                  "only continuous function with that right derivative and U(0) = 1, and the only continuous function with U(0) = 1 that "
+                  "satisfies the equation at the times that are not merged grid points (Gronwall): the slice product is the time-ordered "
                   "exponential.  A reloaded channel resamples to itself; labels survive save_coeff/read_coeff when no label contains "
-                  "';' or a newline; array shapes survive for every number of pulses and columns (save_read_shape_repaired: "
+                  "';' or a newline and a header line is written (header_written: always for the repaired call of fix proposal C14-5; "
+                  "for np.savetxt(header=...) as found not for a single pulse labelled '' saved without time column - "
+                  "C14_counterexample_empty_header, confirmed on the code: KeyError); array shapes survive for every number of pulses and columns (save_read_shape_repaired: "
                   "np.loadtxt(ndmin=2), fix C14-3, applied; save_read_shape_counterexample describes the call before the fix).  "
                   "PARTIAL: that Qobj.expm computes the matrix exponential, run_state (sesolve/mesolve) and the text round trip "
                   "('%1.16f') are numerical; they are checked on every run by the correspondence (1-3 subsystems of dimension 2-3, 1-4 "
@@ -653,8 +656,10 @@ class C14(PropertyCheck):
                   "NormedSpace.exp); the numerical clause (Qobj.expm, sesolve/mesolve, np.savetxt '%1.16f' precision, cubic splines) is "
                   "trusted runtime numerics compared to 1e-9 (analytic) / 2e-6 (solver) on sampled processors.  The fixes C14-1..C14-4 "
                   "are applied in /repo (run_state options, last element of a full-length step coefficient, ndmin=2, cubic boundary); "
-                  "the check reads the variant of the tree with ast and is green on both shapes.  Uniqueness is proved in the class of "
-                  "continuous functions with a right derivative at every point of [0, T_end) (the class the solution itself belongs to).  "
+                  "the check reads the variant of the tree with ast and is green on both shapes; C14-5 (header line of save_coeff for an "
+                  "empty header string) is proposed, variant flag hdr read from the tree.  Uniqueness is proved both in the class of "
+                  "continuous functions with a right derivative at every point of [0, T_end) and in the larger class of continuous "
+                  "functions that are differentiable only off the merged grid.  "
                   "Trusted: Lean kernel (propext, Classical.choice, Quot.sound), the harness py/props/c14.py.")
     trusted_base = [
         "Lean 4.33 kernel; axioms propext, Classical.choice, Quot.sound",
